@@ -74,6 +74,9 @@ pub fn feature_set() -> Vec<&'static str> {
     if cfg!(feature = "fs_s3") {
         v.push("fs_s3");
     }
+    if cfg!(feature = "fs_s4") {
+        v.push("fs_s4:lazy_sweeping");
+    }
     v
 }
 
